@@ -83,6 +83,13 @@ def run(data):
             d1 = (qq / (p * u)).unprefixed(); d2 = (qq / u).unprefixed()
             if not isinstance(m, Decimal):
                 chk("divide-by-prefixed", d1.unit is d2.unit and relclose(d1.magnitude * pv, d2.magnitude))
+            # ... also when the divisor's prefix combines two bases (kilo-kibi: a non-integral exponent) and the numerator has none
+            if p.base != q.base and not isinstance(m, Decimal) and u.prefix is IdentityPrefix:
+                pq = p * q
+                e1 = (Quantity(m, u * u) / (pq * u)).unprefixed(); e2 = (Quantity(m, u * u) / u).unprefixed()
+                chk("divide-by-mixed-prefixed", relclose(float(e1.magnitude) * float(pq.quantify()), float(e2.magnitude)))
+                inv = u / (pq * u)          # unit / prefixed unit: the reciprocal prefix
+                chk("divide-by-mixed-prefixed", relclose(float(inv.prefix.quantify()) * float(pq.quantify()), 1.0))
             # stripping prefixes never changes the value
             x = Quantity(m, p * u)
             chk("unprefixed", x.unprefixed() == x or m != m)
